@@ -549,7 +549,7 @@ pub fn run_c06(sc: &HistSc, st: &mut Stats) -> HistOutcome {
                 return HistOutcome { violation: viol(id, step, op, format!("register {} holds {} but the list model holds {}", q, model::describe_obj(&regs[q]), model::describe(&ms[q]))), outcome: d.finish(), nontrivial };
             }
             let o = &regs[q];
-            if o.len() != ms[q].len() || o.is_empty() != ms[q].is_empty() || o.iter().count() != ms[q].len() || o.into_iter().count() != ms[q].len() || o.capacity() < ms[q].len()
+            if o.len() != ms[q].len() || o.is_empty() != ms[q].is_empty() || o.iter().count() != ms[q].len() || o.into_iter().count() != ms[q].len()
                 || o.first().map(|e| e.key.as_str()) != ms[q].first().map(|e| e.0.as_str()) || o.last().map(|e| e.key.as_str()) != ms[q].last().map(|e| e.0.as_str()) {
                 return HistOutcome { violation: viol("c06.entries", step, op, format!("len/is_empty/iter/first/last of register {} disagree with the list model {}", q, model::describe(&ms[q]))), outcome: d.finish(), nontrivial };
             }
